@@ -624,6 +624,17 @@ def rule_04_13(rep, fx, rid='R04.13'):
             for r in b.return_blocks():
                 if P.can_reach((t_, 0), (r, 'term'), avoid_pos=ins):
                     okl = False
+    # the same as one call: unsent_changes.extend(reader_sn_state.iter()) with nothing filtering in between, on every path of the arm
+    if n_loop == 0:
+        ext = []
+        for bb, t in b.calls():
+            if callee_res(t).rsplit('::', 1)[-1] == 'extend' and has_field(og.of_operand(t['args'][0], bb, 'term'), 'unsent_changes'):
+                src = og.of_operand(t['args'][1], bb, 'term')
+                plain = src[0] == 'call' and src[1].endswith('::iter') and has_field(src, 'reader_sn_state')
+                if plain:
+                    ext.append((bb, 'term'))
+        if ext and arm and not any(P.can_reach((t_, 0), (r, 'term'), avoid_pos=ext) for s_, t_ in arm for r in b.return_blocks()):
+            n_loop, okl = 1, True
     rep.check(okl and n_loop == 1, rid, 'RtpsReaderProxy::handle_ack_nack/requests-recorded', 'every member of reader_sn_state.iter() is inserted into unsent_changes',
               'the reader proxy does not put every sequence number the ACKNACK asks for into unsent_changes (loops over the requested set: %d): the request is acknowledged and forgotten, '
               'the sample is never sent again' % n_loop, b.where())
